@@ -1,4 +1,5 @@
 import TaskModel.Vars.Lemmas
+import TaskModel.Vars.CompileLemmas
 /-!
 # C02 (loops and call variables) — completes `Props/C02.lean`
 
@@ -51,25 +52,33 @@ theorem productSpec_length (rows : List (Name × List Str)) :
     | cons it its ih2 => simp [List.flatMap_cons, ih2, Nat.succ_mul, Nat.add_comm]
 
 /-- **Call variables.** A variable passed in the call and not redefined by the callee's own
-`vars:` is what the callee sees, whatever the lower-priority sites define. -/
-theorem C02_call_vars (w : World) (cx : Ctx) (base : Env) (c : Cache)
+`vars:` is what the callee sees, whatever the lower-priority sites define: the call's definition
+evaluated (in the root directory) over exactly what the four layers below the call layer and the
+call's earlier definitions resolved — no existential state (the task compiled alone). -/
+theorem C02_call_vars (w : World) (cx : Ctx) (base : Env)
     (defs : Site → List (Name × VarDef)) (pre post : List (Name × VarDef)) (m : Name) (d : VarDef)
     (hcall : defs .callVars = pre ++ (m, d) :: post) (hpost : m ∉ names post)
     (htask : m ∉ names (defs .taskVars)) :
-    ∃ s : St, get (getVariables w cx base (layersOf defs) c).env m =
-      (evalDef w cx.rootDir (evalBlock w (fun _ => cx.rootDir) pre s.env s.cache).1
-        (evalBlock w (fun _ => cx.rootDir) pre s.env s.cache).2 d).1 := by
-  let pre4 : List Layer := [⟨.taskfileEnv, defs .taskfileEnv⟩, ⟨.taskfileVars, defs .taskfileVars⟩,
-      ⟨.includeVars, defs .includeVars⟩, ⟨.includedTaskfileVars, defs .includedTaskfileVars⟩]
-  have hl : layersOf defs = pre4 ++ [⟨.callVars, defs .callVars⟩, ⟨.taskVars, defs .taskVars⟩] := rfl
+    get (getVariables w cx base (layersOf defs) []).env m =
+      (evalDef w cx.rootDir
+        (evalBlock w (fun _ => cx.rootDir) pre (stateBefore w cx base defs .callVars).env (stateBefore w cx base defs .callVars).cache).1
+        (evalBlock w (fun _ => cx.rootDir) pre (stateBefore w cx base defs .callVars).env (stateBefore w cx base defs .callVars).cache).2 d).1 := by
+  have hl := layersOf_split defs .callVars
   simp only [getVariables]
   rw [hl, runLayers_append]
-  refine ⟨runLayers w cx pre4 { env := base, cache := c }, ?_⟩
-  generalize runLayers w cx pre4 { env := base, cache := c } = s
-  simp only [runLayers]
+  simp only [runLayers, sitesAfter, List.map_cons, List.map_nil, lay]
   rw [stepLayer_frame _ _ _ _ _ htask]
-  simp only [stepLayer, hcall, siteDirf_root cx .callVars rfl]
-  exact evalBlock_last w _ pre post m d s.env s.cache hpost
+  simp only [stepLayer, hcall, siteDirf_root cx .callVars rfl, stateBefore]
+  exact evalBlock_last w _ pre post m d _ _ hpost
+
+/-- a literal passed in the call is what the callee sees -/
+theorem C02_call_vars_literal (w : World) (cx : Ctx) (base : Env)
+    (defs : Site → List (Name × VarDef)) (pre post : List (Name × VarDef)) (m : Name) (v : Str)
+    (hcall : defs .callVars = pre ++ (m, .lit [.text v]) :: post) (hpost : m ∉ names post)
+    (htask : m ∉ names (defs .taskVars)) :
+    get (getVariables w cx base (layersOf defs) []).env m = v := by
+  rw [C02_call_vars w cx base defs pre post m _ hcall hpost htask]
+  simp [evalDef, render]
 
 example : product [(0, [[1], [2]]), (1, [[7], [8]])] =
     [[(0, [1]), (1, [7])], [(0, [1]), (1, [8])], [(0, [2]), (1, [7])], [(0, [2]), (1, [8])]] := by decide
